@@ -103,38 +103,53 @@ impl<'a> CodeBody<'a> {
         // cannot be turned into "return", and a condition value isn't considered
         // a completion value.
         let mut incoming_map = vec![vec![]; self.basic_blocks.len()];
-        let mut reachable = vec![false; self.basic_blocks.len()];
-        reachable[0] = true;
         for (i, b) in self.basic_blocks.iter().enumerate() {
             match &b.terminator {
                 Some(Terminator::Br(l)) => incoming_map[l.0].push(i),
-                Some(Terminator::BrCond(_, a, b)) => {
-                    reachable[a.0] = true;
-                    reachable[b.0] = true;
-                }
+                Some(Terminator::BrCond(..) | Terminator::Return(_) | Terminator::Unreachable)
+                | None => {}
+            }
+        }
+
+        // collect blocks which "br" will be turned into "return": distance from the
+        // start_ref block is 0, where distance = completion_value + statements.len()
+        let mut to_rewrite = vec![];
+        let mut to_visit = vec![start_ref.0];
+        while let Some(i) = to_visit.pop() {
+            let b = &self.basic_blocks[i];
+            assert!(matches!(b.terminator, Some(Terminator::Br(_)) | None));
+            to_rewrite.push(i);
+            if b.completion_value.is_none() && b.statements.is_empty() {
+                to_visit.extend(mem::take(&mut incoming_map[i]));
+            }
+        }
+
+        // find blocks still reachable from the entry after the rewrite. the rewritten
+        // blocks will no longer jump to anywhere, but the other blocks may reach them by
+        // "br" as well as "br_cond" (e.g. statements following switch without any case.)
+        let mut reachable = vec![false; self.basic_blocks.len()];
+        let mut to_mark = vec![0];
+        while let Some(i) = to_mark.pop() {
+            if mem::replace(&mut reachable[i], true) || to_rewrite.contains(&i) {
+                continue;
+            }
+            match &self.basic_blocks[i].terminator {
+                Some(Terminator::Br(l)) => to_mark.push(l.0),
+                Some(Terminator::BrCond(_, a, b)) => to_mark.extend([a.0, b.0]),
                 Some(Terminator::Return(_) | Terminator::Unreachable) | None => {}
             }
         }
 
-        // turn "br" into "return" while distance from the start_ref block is 0, where
-        // distance = completion_value + statements.len()
-        let mut to_visit = vec![start_ref.0];
-        while let Some(i) = to_visit.pop() {
+        for i in to_rewrite {
             let b = &mut self.basic_blocks[i];
-            assert!(matches!(b.terminator, Some(Terminator::Br(_)) | None));
-            if let Some(a) = b.completion_value.take() {
-                b.terminator = Some(Terminator::Return(a));
+            b.terminator = if let Some(a) = b.completion_value.take() {
+                Some(Terminator::Return(a))
+            } else if reachable[i] {
+                let end = byte_range.end; // implicit return should be at end
+                Some(Terminator::Return(Operand::Void(Void::new(end..end))))
             } else {
-                b.terminator = if reachable[i] {
-                    let end = byte_range.end; // implicit return should be at end
-                    Some(Terminator::Return(Operand::Void(Void::new(end..end))))
-                } else {
-                    Some(Terminator::Unreachable)
-                };
-                if b.statements.is_empty() {
-                    to_visit.extend(mem::take(&mut incoming_map[i]));
-                }
-            }
+                Some(Terminator::Unreachable)
+            };
         }
     }
 
